@@ -21,6 +21,7 @@ type c15Mod struct {
 	Imports []c15Imp `json:"imports"` // textual order
 	Funcs   []c15Fn  `json:"funcs"`
 	HasType bool     `json:"has_type"`
+	Ctor    bool     `json:"type_has_constructor,omitempty"` // the type has an explicit constructor that calls a sibling of its module
 	Bare    bool     `json:"bare,omitempty"` // nothing but its 导入 lines: no statement, no export
 	Source  string   `json:"source"`
 	Missing bool     `json:"missing,omitempty"`
@@ -210,7 +211,13 @@ func c15Source(m *c15Mod, isMain bool, mainStmts []string) string {
 	}
 	if m.HasType {
 		tag := c15Tag(m.Name)
-		fmt.Fprintf(&sb, "定义%s型：\n\t其名 = “%s型”\n\n\t如何叫？\n\t\t输出以“叫>”（拼接：（%s））\n\n", tag, tag, m.Funcs[0].Name)
+		if m.Ctor {
+			// an explicit constructor: like every method of the module it runs in its own module,
+			// whoever constructs the object
+			fmt.Fprintf(&sb, "定义%s型：\n\t其名 = “%s型”\n\t其记 = “”\n\n\t如何叫？\n\t\t输出以“叫>”（拼接：（%s））\n\n如何新建%s型？\n\t其记 = 以“造>”（拼接：（%s））\n\n", tag, tag, m.Funcs[0].Name, tag, m.Funcs[len(m.Funcs)-1].Name)
+		} else {
+			fmt.Fprintf(&sb, "定义%s型：\n\t其名 = “%s型”\n\n\t如何叫？\n\t\t输出以“叫>”（拼接：（%s））\n\n", tag, tag, m.Funcs[0].Name)
+		}
 	}
 	return sb.String()
 }
@@ -256,10 +263,11 @@ func runC15(t *zsim.Tape, cfg *hlib.Config) *hlib.Outcome {
 			m.Funcs = append(m.Funcs, c15Fn{Name: fmt.Sprintf("%s法%d", tag, j+1)})
 		}
 		m.HasType = t.Draw(3) == 0
+		m.Ctor = m.HasType && t.Draw(2) == 1
 		if t.Draw(7) == 6 {
 			// a module without a body: only its imports (if it gets any) — still loaded once,
 			// still part of cycles, still loading what it imports
-			m.Bare, m.Funcs, m.HasType = true, nil, false
+			m.Bare, m.Funcs, m.HasType, m.Ctor = true, nil, false, false
 		}
 	}
 	// edges: mostly acyclic (importing only later modules), sometimes anything goes
@@ -425,8 +433,13 @@ func runC15(t *zsim.Tape, cfg *hlib.Config) *hlib.Outcome {
 			n := vis[t.Draw(len(vis))]
 			if strings.HasSuffix(n, "型") {
 				home := byName[visible[n]]
-				mainStmts = append(mainStmts, fmt.Sprintf("令O%d = （新建%s）", c, n), fmt.Sprintf("（显示：O%d 之 名、以O%d（叫））", c, c))
-				expDisp = append(expDisp, fmt.Sprintf("%s 叫>%s", n, md.call(home.Funcs[0].Name, 0)))
+				if home.Ctor {
+					mainStmts = append(mainStmts, fmt.Sprintf("令O%d = （新建%s）", c, n), fmt.Sprintf("（显示：O%d 之 名、O%d 之 记、以O%d（叫））", c, c, c))
+					expDisp = append(expDisp, fmt.Sprintf("%s 造>%s 叫>%s", n, md.call(home.Funcs[len(home.Funcs)-1].Name, 0), md.call(home.Funcs[0].Name, 0)))
+				} else {
+					mainStmts = append(mainStmts, fmt.Sprintf("令O%d = （新建%s）", c, n), fmt.Sprintf("（显示：O%d 之 名、以O%d（叫））", c, c))
+					expDisp = append(expDisp, fmt.Sprintf("%s 叫>%s", n, md.call(home.Funcs[0].Name, 0)))
+				}
 			} else {
 				mainStmts = append(mainStmts, fmt.Sprintf("（显示：（%s））", n))
 				expDisp = append(expDisp, md.call(n, 0))
